@@ -32,8 +32,8 @@ func init() {
 			"without the clock hook the send instant is bracketed by two clock reads around the call",
 		},
 		Strata: []fw.Stratum{
-			{Name: "op-sequences", N: fw.Const(40000, 3000000), Run: c06Seq},
-			{Name: "shared-sequencer", N: fw.Const(300, 20000), Run: c06Shared, Race: true, Serial: true},
+			{Name: "op-sequences", N: fw.Const(200000, 5000000), Run: c06Seq},
+			{Name: "shared-sequencer", N: fw.Const(1000, 30000), Run: c06Shared, Race: true, Serial: true},
 		},
 	})
 }
